@@ -193,8 +193,8 @@ package wkt
 //@   modifies *l
 
 //@ func wktLex.setLexError
-//@   requires wlOK(l)
-//@   ensures wlOK(l) && l.lastErr != nil
+//@   requires lexOK(l)
+//@   ensures lexOK(l) && l.wkt == old(l.wkt) && l.curPos == old(l.curPos) && l.lastPos == old(l.lastPos) && l.lytStack == old(l.lytStack) && l.lastErr != nil
 //@   modifies *l
 
 //@ func wktLex.setIncorrectStrideError
